@@ -56,12 +56,8 @@ Definition same_result (a b : obs) : bool :=
 (* plus the swallowed-failure records *)
 Definition same_obs (a b : obs) : bool := same_result a b && ms_eqb log_eqb (snd a) (snd b).
 
-Definition with_flag (i : nat) (q : cquirks) : cquirks :=
-  match i with
-  | 0 => Build_cquirks false (q_finalize_unguarded q)
-  | _ => Build_cquirks (q_value_error_escapes q) false
-  end.
-Definition candidates (q : cquirks) : list cquirks := q :: map (fun i => with_flag i q) [0; 1] ++ [ideal].
+Definition with_flag (i : nat) (q : cquirks) : cquirks := Build_cquirks false.
+Definition candidates (q : cquirks) : list cquirks := q :: map (fun i => with_flag i q) [0] ++ [ideal].
 
 (* mode 0 = Orchestrator.lint_files ; 1 = worker path of lint_files_parallel *)
 Definition run_mode (mode : nat) (q : cquirks) (rules : list rule) (files : list string) :=
@@ -75,10 +71,18 @@ Definition spec_mode (mode : nat) (rules : list rule) (files : list string) : ob
   | _ => (None, flat_viols (spec_cells rules files) (map (fun r => (r_id r, ok_or_nil (r_final r []))) rules), [])
   end.
 
+(* the property's domain: finalize() does not raise on what the run has stored (no file content is known to
+   make it raise; when it does the run aborts - theorem finalize_failure_crashes) *)
+Definition is_ok {A} (o : outcome A) : bool := match o with Ok _ => true | Fail _ => false end.
+Definition in_domain (mode : nat) (rules : list rule) (files : list string) : bool :=
+  forallb (fun r => is_ok (r_final r (match mode with 0 => store_of r files | _ => [] end))) rules.
+
+(* [in domain ; impl = spec ; model ideal = spec ; impl = model c for each candidate c] *)
 Definition judge_run (q : cquirks) (mode : nat) (stubs : list stub) (files : list string) (impl : obs) : list bool :=
   let rules := map rule_of_stub stubs in
   let spec := spec_mode mode rules files in
-  same_result impl spec
+  in_domain mode rules files
+  :: same_result impl spec
   :: same_result (observe (run_mode mode ideal rules files)) spec
   :: map (fun c => same_obs impl (observe (run_mode mode c rules files))) (candidates q).
 
